@@ -138,13 +138,16 @@ Proof.
   (* translate *)
   rewrite opt_translate_step by reflexivity. cbn [set_translate].
   (* with *)
-  assert (HA: msgs_of_items of_tag_into
-                (map (fun x => match x with AM m' => TComp (fields_of (is_nil (m_translate m')) m') | AS z => TStr z end) w)
+  assert (HA: forall mx, msgs_of_items of_tag_into
+                (map (fun x => match x with
+                               | AM m' => TComp (fields_of (is_nil (m_translate m')) m')
+                               | AS z => arg_str_tag mx z
+                               end) w)
               = Some (map norm_arg_msg w)).
-  { unfold msgs_of_items. rewrite map_map. apply all_some_map.
+  { intros mx. unfold msgs_of_items. rewrite map_map. apply all_some_map.
     eapply Forall_impl; [|exact Hw]. intros [m'|z] Hx; cbn [argP] in Hx.
     - apply (Hx (is_nil (m_translate m'))).
-    - reflexivity. }
+    - destruct mx; reflexivity. }
   assert (HE: msgs_of_items of_tag_into (map (fun m' => TComp (fields_of (is_nil (m_translate m')) m')) e) = Some (map norm e)).
   { unfold msgs_of_items. rewrite map_map. apply all_some_map.
     eapply Forall_impl; [|exact He]. intros m' Hx. apply (Hx (is_nil (m_translate m'))). }
@@ -153,7 +156,7 @@ Proof.
     destruct e as [|e0 e'].
     + reflexivity.
     + cbn [app]. rewrite (step_extra of_tag_into _ _ _ _ [] HE). reflexivity.
-  - cbn [app]. rewrite (step_with of_tag_into _ _ _ _ _ HA). cbn [set_with m_with app].
+  - cbn [app]. rewrite (step_with of_tag_into _ _ _ _ _ (HA (mixed_args (x0 :: w')))). cbn [set_with m_with app].
     destruct e as [|e0 e'].
     + reflexivity.
     + rewrite (step_extra of_tag_into _ _ _ _ [] HE). reflexivity.
